@@ -56,6 +56,9 @@ CLAIMED = {
  "C18": ("exploration", "bounded-exhaustive operation sequences over the real frame types against an abstract stack-of-maps model (small-scope state-space enumeration) + proptest longer sequences",
          "Every sequence of <=3 (thorough <=4) of 28 operations (push plain/sandboxed scope with each of 9 data maps, push global layer, pop, set_global, set_index) from 3 caller maps, plus strided slices of the next lengths up to 6 and random sequences to 12, executed on StackFrame/SandboxedStackFrame/GlobalFrame over &dyn Runtime with real drops; after each sequence try_get == model for 8 paths, get agrees with try_get, roots() == resolving names, counters == model.",
          "The abstract model (stack of maps with sandbox cut-off, nearest global layer, one counter map) is written from the statement and trusted; exhaustive only up to the stated length.", "4.18"),
+ "C12": ("exploration", "proptest recursive data through every view/conversion route with a fingerprint comparison; proptest instances of derived structs rendered through ~150 template probes via derive and via serde plus a field-by-field ObjectView walk; enumerated boundary integers through six conversion routes",
+         "Each generated datum is observed through &v, ValueCow Owned/Borrowed, to_value, as_view, Some/None, serde to_value/from_value (also into serde_json::Value for kind), JSON and YAML text and must answer type_name, truthy/default/empty/blank, is_*, scalar conversions, structure and printed form identically; struct instances with derive(ObjectView, ValueView, Serialize, Deserialize) must render identically through both routes and agree field by field; integers around i64/u64 limits must be rejected or carried as an equal float.",
+         "Strings spelling the crate's date formats, State markers and NaN are excluded as data; enum *de*serialisation is declined by the crate with an error and is not asserted; floats are restricted to values serde_json parses exactly.", "4.12"),
 }
 
 NOT_YET = {
